@@ -203,33 +203,30 @@ def twQuat : Tweenable α (Quat α) := ⟨Quat.tweenSlerp⟩
 
 /-! ### spatial track -/
 
-/-- what can go wrong inside `spatialize` -/
+/-- the ideal-arithmetic shadow of NaN/∞ inside `spatialize`: a division by zero at the named site
+    (raised only by `spatializeChecked`; the computation itself cannot panic) -/
 inductive SpatialFault where
-  /-- `f32::clamp(min, max)` with `!(min <= max)`: panics (on the audio thread) -/
-  | clampMinGtMax
-  /-- ideal-arithmetic shadow of NaN/∞: a division by zero at the named site -/
   | nonFinite (site : String)
 deriving Repr, DecidableEq
 
 def SpatialFault.name : SpatialFault → String
-  | .clampMinGtMax => "clampMinGtMax"
   | .nonFinite s => "nonFinite:" ++ s
 
-/-- mirrors: spatial_builder.rs::SpatialTrackDistances::relative_distance
-    (`distance.clamp(min, max)` asserts `min <= max`) -/
-def relativeDistance (minD maxD distance : α) : Except SpatialFault α :=
-  if minD ≤ maxD then
-    .ok (KOps.r32 (KOps.r32 (clamp distance minD maxD - minD) / KOps.r32 (maxD - minD)))
-  else .error .clampMinGtMax
+/-- mirrors: spatial_builder.rs::SpatialTrackDistances::relative_distance — `min < max`: the clamped
+    distance's place in the range; otherwise (no range to interpolate over; `f32::clamp` is not
+    called) a step at `min_distance`: `0.0` below it, `1.0` from it on -/
+def relativeDistance (minD maxD distance : α) : α :=
+  if minD < maxD then
+    KOps.r32 (KOps.r32 (clamp distance minD maxD - minD) / KOps.r32 (maxD - minD))
+  else if distance < minD then (0.0 : α)
+  else (1.0 : α)
 
 /-- mirrors: sub.rs::SpatialData::spatialize, "attenuate volume": the amplitude for a distance:
     `interpolate(SILENCE, IDENTITY, ease(1 − relative_distance) as f32).as_amplitude()` -/
-def attenuation (e : Easing α) (minD maxD distance : α) : Except SpatialFault α :=
-  match relativeDistance minD maxD distance with
-  | .error f => .error f
-  | .ok rel =>
-    let relVol := KOps.r32 (e.apply (KOps.r32 ((1.0 : α) - rel)))
-    .ok (asAmplitude (lerp32 (silenceDb : α) (0.0 : α) relVol))
+def attenuation (e : Easing α) (minD maxD distance : α) : α :=
+  let rel := relativeDistance minD maxD distance
+  let relVol := KOps.r32 (e.apply (KOps.r32 ((1.0 : α) - rel)))
+  asAmplitude (lerp32 (silenceDb : α) (0.0 : α) relVol)
 
 /-- `EAR_DISTANCE` (sub.rs::listener_ear_positions) -/
 def earDistance : α := lit32 (0.1 : α)
@@ -272,38 +269,49 @@ def earGains (strength : α) (position lp : Vec3 α) (lo : Quat α) : α × α :
 /-- mirrors: sub.rs::SpatialData::spatialize for given (already interpolated) emitter position and
     (already clamped) strength -/
 def spatializeAt (atten : Option (Easing α)) (minD maxD : α) (position : Vec3 α) (strength : α)
-    (input : Frame α) (lp : Vec3 α) (lo : Quat α) : Except SpatialFault (Frame α) :=
-  let attenuated : Except SpatialFault (Frame α) :=
+    (input : Frame α) (lp : Vec3 α) (lo : Quat α) : Frame α :=
+  let output : Frame α :=
     match atten with
-    | none => .ok input
-    | some e =>
-      match attenuation e minD maxD (Vec3.length (Vec3.sub lp position)) with
-      | .error f => .error f
-      | .ok amp => .ok (input.scale amp)
-  match attenuated with
-  | .error f => .error f
-  | .ok output =>
-    if feq strength (0.0 : α) then .ok output
-    else
-      let m := output.asMono
-      let g := earGains strength position lp lo
-      .ok ⟨KOps.r32 (m.left * g.1), KOps.r32 (m.right * g.2)⟩
+    | none => input
+    | some e => input.scale (attenuation e minD maxD (Vec3.length (Vec3.sub lp position)))
+  if feq strength (0.0 : α) then output
+  else
+    let m := output.asMono
+    let g := earGains strength position lp lo
+    ⟨KOps.r32 (m.left * g.1), KOps.r32 (m.right * g.2)⟩
 
-/-- the same computation with every division checked: `nonFinite site` when a divisor is zero
-    (`relative_distance`'s `max − min`, the `sqrt(dot4)` of the interpolated orientation).
-    `normalize_or_zero` guards its own division, so coincident points raise nothing. -/
+/-- `f32::MIN_POSITIVE` = 2⁻¹²⁶, the smallest positive normal `f32` -/
+def minPositive32 : α := (1.17549435082228750796873653722e-38 : α)
+
+/-- mirrors: `f32::is_normal` — neither zero, subnormal, infinite nor NaN -/
+def isNormal32 (x : α) : Bool := KOps.isFinite x && decide ((minPositive32 : α) ≤ KOps.abs x)
+
+/-- mirrors: Quat::length_squared → Vec4::length_squared (`dot4(self, self)`) -/
+def Quat.lengthSquared (q : Quat α) : α := Quat.dot4 q q
+
+/-- mirrors: info.rs::rotation_or_identity — a quaternion that cannot be normalised (squared length
+    zero, subnormal, infinite or NaN) counts as the identity orientation -/
+def Quat.rotationOrIdentity (q : Quat α) : Quat α :=
+  if isNormal32 (Quat.lengthSquared q) then q else Quat.identity
+
+/-- the same computation with every division checked, from the listener's previous and current
+    orientation as the caller supplied them: `nonFinite site` when a divisor is zero
+    (`relative_distance`'s `max − min`, reached only when `min < max`; the `sqrt(dot4)` of the
+    interpolated orientation, reached with the two orientations after `rotation_or_identity`).
+    `normalize_or_zero` guards its own division, so coincident points raise nothing.
+    `C15_defined`: over ℝ this never raises anything. -/
 def spatializeChecked (atten : Option (Easing α)) (minD maxD : α) (position : Vec3 α) (strength : α)
     (input : Frame α) (lp : Vec3 α) (prevOri ori : Quat α) (s : α) : Except SpatialFault (Frame α) :=
-  let d := Quat.dot4 prevOri ori
-  let e := if signNeg d then Quat.neg ori else ori
-  let mixed := Quat.add (Quat.scale prevOri (KOps.r32 ((1.0 : α) - s))) (Quat.scale e s)
-  if atten.isSome && decide (minD ≤ maxD) && feq (KOps.r32 (maxD - minD)) (0.0 : α) then
+  let a := Quat.rotationOrIdentity prevOri
+  let o := Quat.rotationOrIdentity ori
+  let d := Quat.dot4 a o
+  let e := if signNeg d then Quat.neg o else o
+  let mixed := Quat.add (Quat.scale a (KOps.r32 ((1.0 : α) - s))) (Quat.scale e s)
+  if atten.isSome && decide (minD < maxD) && feq (KOps.r32 (maxD - minD)) (0.0 : α) then
     .error (.nonFinite "relative_distance")
   else if !(feq strength (0.0 : α)) && feq (KOps.r32 (KOps.sqrt (Quat.dot4 mixed mixed))) (0.0 : α) then
-    match spatializeAt atten minD maxD position strength input lp (Quat.lerp prevOri ori s) with
-    | .error f => .error f
-    | .ok _ => .error (.nonFinite "orientation")
-  else spatializeAt atten minD maxD position strength input lp (Quat.lerp prevOri ori s)
+    .error (.nonFinite "orientation")
+  else .ok (spatializeAt atten minD maxD position strength input lp (Quat.lerp a o s))
 
 /-- mirrors: sub.rs::SpatialData -/
 structure SpatialData (α : Type) where
@@ -324,9 +332,10 @@ structure ListenerInfo (α : Type) where
 /-- mirrors: info.rs::ListenerInfo::interpolated_position -/
 def ListenerInfo.interpolatedPosition (li : ListenerInfo α) (amount : α) : Vec3 α :=
   li.previousPosition.lerp li.position amount
-/-- mirrors: info.rs::ListenerInfo::interpolated_orientation (a normalised *lerp*, not a slerp) -/
+/-- mirrors: info.rs::ListenerInfo::interpolated_orientation (a normalised *lerp*, not a slerp, of the
+    two orientations, each replaced by the identity when it cannot be normalised) -/
 def ListenerInfo.interpolatedOrientation (li : ListenerInfo α) (amount : α) : Quat α :=
-  li.previousOrientation.lerp li.orientation amount
+  (Quat.rotationOrIdentity li.previousOrientation).lerp (Quat.rotationOrIdentity li.orientation) amount
 
 /-- mirrors: info.rs::SpatialTrackInfo -/
 structure SpatialTrackInfo (α : Type) where
@@ -345,30 +354,24 @@ def SpatialData.strengthAt (sd : SpatialData α) (t : α) : α :=
 
 /-- mirrors: sub.rs::SpatialData::spatialize -/
 def SpatialData.spatialize (sd : SpatialData α) (input : Frame α) (lp : Vec3 α) (lo : Quat α) (t : α) :
-    Except SpatialFault (Frame α) :=
+    Frame α :=
   spatializeAt sd.attenuation sd.minDistance sd.maxDistance (sd.position.interpolatedValue twVec3 t)
     (sd.strengthAt t) input lp lo
 
 /-- mirrors: sub.rs::Track::process, "apply spatialization", frame `i` of a chunk of `n` frames:
     the listener is looked up by id; when it does not exist the frame is zeroed. -/
 def SpatialData.frameOut (sd : SpatialData α) (li : Option (ListenerInfo α)) (i n : Nat) (frame : Frame α) :
-    Except SpatialFault (Frame α) :=
+    Frame α :=
   let t : α := (KOps.ofNat i : α) / (KOps.ofNat n : α)
   match li with
   | some li =>
     sd.spatialize frame (li.interpolatedPosition (KOps.r32 t)) (li.interpolatedOrientation (KOps.r32 t)) t
-  | none => .ok Frame.zero
+  | none => Frame.zero
 
 /-- the whole "apply spatialization" loop over a chunk (frames `i, i+1, …` of `n`) -/
 def SpatialData.chunkOut (sd : SpatialData α) (li : Option (ListenerInfo α)) (n : Nat) :
-    Nat → List (Frame α) → Except SpatialFault (List (Frame α))
-  | _, [] => .ok []
-  | i, f :: rest =>
-    match sd.frameOut li i n f with
-    | .error e => .error e
-    | .ok o =>
-      match chunkOut sd li n (i + 1) rest with
-      | .error e => .error e
-      | .ok os => .ok (o :: os)
+    Nat → List (Frame α) → List (Frame α)
+  | _, [] => []
+  | i, f :: rest => sd.frameOut li i n f :: chunkOut sd li n (i + 1) rest
 
 end K
